@@ -6451,3 +6451,23 @@ mod tests {
         }
     }
 }
+
+/// Verification hooks; compiled only with the `hsivonen_encoding_rs_verif`
+/// feature, which is off by default.
+#[cfg(feature = "hsivonen_encoding_rs_verif")]
+pub mod verif_hooks {
+    use core::sync::atomic::{AtomicBool, Ordering};
+
+    static FORCE_SCALAR_UTF8: AtomicBool = AtomicBool::new(false);
+
+    /// When set, `utf8_valid_up_to` skips the SIMD validator dispatch and
+    /// runs the built-in scalar validator for inputs of every length.
+    pub fn set_force_scalar_utf8(on: bool) {
+        FORCE_SCALAR_UTF8.store(on, Ordering::SeqCst);
+    }
+
+    #[inline(always)]
+    pub(crate) fn force_scalar_utf8() -> bool {
+        FORCE_SCALAR_UTF8.load(Ordering::Relaxed)
+    }
+}
